@@ -80,6 +80,12 @@ def c17 (toks : List String) : Option String :=
     let xs ← natList? xs
     let (o, tr) := mac (stageFn 0) xs (joint = "1")
     some s!"O {showNats o} T {showTrace tr}"
+  | ["macid", joint, xs] => do
+    -- pass-through encoders (they return their input), the model run twice on one input list: pure, inputs untouched
+    let xs ← natList? xs
+    let f := fun s v => if 100 ≤ s ∧ s < 200 then v else stageFn 0 s v
+    let (o, tr) := mac f xs (joint = "1")
+    some s!"O {showNats o} T {showTrace tr} | O {showNats o} T {showTrace tr} | X {showNats xs}"
   | _ => none
 
 end Kaira.Verbs
